@@ -175,6 +175,8 @@ func (e *c10Eng) blockOp(blk *types.Block, id, pid int, parentView map[int]c10Ac
 			e.fail("c10/save-input-inconsistent/unlogged-vote-change", fmt.Sprintf("block %d: %s is registered with %d votes (parent view: flag %c, %d votes) and the block has no VotesLog for it", blk.Height(), e.name[acc.Address], votes, par.flag, par.votes))
 		case f == 'n' && logged:
 			e.fail("c10/save-input-inconsistent/vote-log-of-non-candidate", fmt.Sprintf("block %d: %s has no candidate profile and a VotesLog", blk.Height(), e.name[acc.Address]))
+		case f == 'u' && (votes != 0 || (par.flag == 'y' && par.votes != 0 && !logged)):
+			e.fail("c10/save-input-inconsistent/unregister-without-reset", fmt.Sprintf("block %d: %s is un-registered with %d votes (parent view: flag %c, %d votes), VotesLog present: %v", blk.Height(), e.name[acc.Address], votes, par.flag, par.votes, logged))
 		case f == 'n' && par.flag == 'y':
 			e.fail("c10/save-input-inconsistent/profile-lost", fmt.Sprintf("block %d: %s was registered and has no profile now", blk.Height(), e.name[acc.Address]))
 		}
@@ -257,14 +259,21 @@ func (e *c10Eng) oracle(blk *types.Block, view map[int]c10Acct, max int) {
 		sfx = "/odd-candidate-flag"
 	}
 	ctx := fmt.Sprintf("block %d (max %d): top=%s, full sort of the registered candidates of its view=%s, node that never re-opened=%s", blk.Height(), max, c10ShowCands(got), c10ShowCands(want), c10ShowCands(ref))
-	hasUnreg := false
+	hasUnreg, unregVotes := false, false
 	for _, g := range got {
 		if f := view[g.addr].flag; f != 'y' && f != 'o' {
 			hasUnreg = true
+			if g.votes != 0 {
+				unregVotes = true
+			}
 		}
 	}
 	if hasUnreg {
-		e.fail("c10/top-contains-unregistered", ctx)
+		if unregVotes { // the known finding lists un-registered candidates with 0 votes only
+			e.fail("c10/top-contains-unregistered/nonzero-votes", ctx)
+		} else {
+			e.fail("c10/top-contains-unregistered", ctx)
+		}
 		e.tainted = true
 	}
 	if !c10Equal(got, ref) {
@@ -301,6 +310,8 @@ func c10EngineRandomRun(c *Ctx, run int) {
 	now := uint32(time.Now().Unix())
 	w := NewWorld(1, now-500000, 10000)
 	e := &c10Eng{c: c, run: run, num: map[common.Address]int{}, name: map[common.Address]string{}}
+	site := "engine-random-run"
+	defer c10Guard(c, fmt.Sprintf("engine run %d", run), &site, func() []string { return append([]string{}, e.replay...) })
 	e.a, e.b = w.NewNode(deputyCount), w.NewNode(deputyCount)
 	defer func() {
 		Safe(func() string { e.a.Close(); return "" })
@@ -341,13 +352,20 @@ func c10EngineRandomRun(c *Ctx, run int) {
 	e.op("stable 1", e.persisted(e.a))
 	view := e.viewOf(e.a, g.Hash())
 
-	regState := map[string]byte{} // per candidate actor: 'n' 'y' 'u' 'o'
+	regState := map[string]byte{}       // per candidate actor: 'n' 'y' 'u' 'o' — what the generator believes
+	shadow := map[common.Address]byte{} // flag by construction, from the register / un-register txs really PACKED
+	type intent struct {
+		hash common.Hash
+		addr common.Address
+		flag byte
+	}
 	votedFor := map[string]common.Address{}
 	parent := g
 	t := parent.Time() + 1
 	quietSnapshot := c.Rnd.Intn(2) == 0
 	for h := uint32(1); h <= 8; h++ {
 		var txs types.Transactions
+		var intents []intent
 		nmsg := 0
 		opt := func() TxOpt { nmsg++; return TxOpt{Exp: uint64(t) + 100, Msg: fmt.Sprintf("r%d-h%d-%d", run, h, nmsg)} }
 		if h == 1 {
@@ -383,6 +401,9 @@ func c10EngineRandomRun(c *Ctx, run int) {
 						c.Count("engine-tx:register-with-isCandidate=yes")
 					}
 					txs = append(txs, txRegister(x.key, dep, detKey("c10r-node-"+x.name+fmt.Sprint(run)), false, extra, opt()))
+					if st == 'y' {
+						intents = append(intents, intent{txs[len(txs)-1].Hash(), x.addr, 'y'})
+					}
 					regState[x.name] = st
 					usedSender[x.addr] = true
 					c.Count("engine-tx:register")
@@ -415,6 +436,7 @@ func c10EngineRandomRun(c *Ctx, run int) {
 						continue
 					}
 					txs = append(txs, txRegister(x.key, nil, detKey("c10r-node-"+x.name+fmt.Sprint(run)), true, nil, opt()))
+					intents = append(intents, intent{txs[len(txs)-1].Hash(), x.addr, 'u'})
 					regState[x.name] = 'u'
 					usedSender[x.addr] = true
 					c.Count("engine-tx:unregister")
@@ -446,6 +468,10 @@ func c10EngineRandomRun(c *Ctx, run int) {
 		if len(invalid) > 0 {
 			c.Count("engine-tx:rejected")
 		}
+		direct := ""
+		if h == 8 {
+			direct = c10DirectLoader(e.b, parent.Hash(), func(x common.Address) int { return e.num[x] })
+		}
 		ra, ma := SafeMsg(func() string { return fmt.Sprint(e.a.Insert(CloneBlock(blk))) })
 		rb, _ := SafeMsg(func() string { return fmt.Sprint(e.b.Insert(CloneBlock(blk))) })
 		id, pid := int(h)+1, int(h)
@@ -454,7 +480,44 @@ func c10EngineRandomRun(c *Ctx, run int) {
 			if lc := e.a.DB.GetLastConfirm(); lc != nil && lc.Block != nil && lc.Block.Hash() == blk.Hash() {
 				e.op(fmt.Sprintf("stable %d", id), e.persisted(e.a))
 			}
+			parentView := view
 			view = e.viewOf(e.a, blk.Hash())
+			// by-construction shadow of the candidate flags: a packed register tx makes the sender a candidate, a
+			// packed un-register tx un-registers it with 0 votes and a VotesLog iff it had votes
+			packed := map[common.Hash]bool{}
+			for _, tx := range blk.Txs {
+				packed[tx.Hash()] = true
+			}
+			for _, in := range intents {
+				if !packed[in.hash] {
+					continue
+				}
+				if in.flag == 'y' && shadow[in.addr] == 0 {
+					shadow[in.addr] = 'y'
+				} else if in.flag == 'u' && shadow[in.addr] == 'y' {
+					shadow[in.addr] = 'u'
+					k := e.num[in.addr]
+					hadVotes := parentView[k].votes != 0
+					logged := false
+					for _, lg := range blk.ChangeLogs {
+						if lg.LogType == account.VotesLog && lg.Address == in.addr {
+							logged = true
+						}
+					}
+					if view[k].votes != 0 || logged != hadVotes {
+						e.fail("c10/save-input-inconsistent/unregister-without-reset", fmt.Sprintf("block %d: %s un-registered by a packed tx: votes now %d, had %d, VotesLog present: %v", blk.Height(), e.name[in.addr], view[k].votes, parentView[k].votes, logged))
+					}
+				}
+			}
+			for _, x := range candsA {
+				want := shadow[x.addr]
+				if want == 0 {
+					want = 'n'
+				}
+				if got := view[e.num[x.addr]].flag; got != want && got != 'o' {
+					e.fail("c10/engine-shadow-mismatch", fmt.Sprintf("block %d: %s has candidate flag %c in the block's view, the packed register / un-register txs say %c", blk.Height(), x.name, got, want))
+				}
+			}
 			// what the tx layer really left in the accounts
 			for _, x := range candsA {
 				if view[e.num[x.addr]].flag == 'o' {
@@ -464,20 +527,23 @@ func c10EngineRandomRun(c *Ctx, run int) {
 			e.oracle(blk, view, max)
 		}
 		if h == 8 {
-			// the snapshot block: deputies against the model op `seal`
-			var ds, post []string
-			for _, d := range blk.DeputyNodes {
-				ds = append(ds, fmt.Sprintf("%d:%s:%d", e.num[d.MinerAddress], d.Votes, d.Rank))
-			}
-			for _, x := range topAddrs {
+			// the snapshot block: what the REAL engine stored against the model op `seal`
+			var post []string
+			for _, x := range topAddrs { // (a rejected block leaves `view` at the parent's state; the op then fails anyway)
 				post = append(post, fmt.Sprintf("%d:%d", e.num[x], view[e.num[x]].votes))
 			}
-			dstr := "-"
-			if len(ds) > 0 {
-				dstr = strings.Join(ds, " ")
-			}
+			numOf := func(x common.Address) int { return e.num[x] }
+			dstr, stored, probs := c10SnapshotObserve(e.b, blk, direct, rb, numOf)
 			loadable := c10TermPanic(func() { deputynode.NewTermRecord(blk.Height(), CloneBlock(blk).DeputyNodes) })
+			if stored != nil {
+				loadable = c10TermPanic(func() { deputynode.NewTermRecord(blk.Height(), stored) })
+			}
 			e.op(fmt.Sprintf("seal %d %d %d %s / %s", deputyCount, params.TermDuration, blk.Height(), strings.Join(topToks, " "), strings.Join(post, " ")), dstr+" => "+loadable)
+			for _, pr := range probs {
+				parts := strings.SplitN(pr, "|", 2)
+				e.fail(parts[0], fmt.Sprintf("snapshot block 8 with %d txs on a parent whose published list is [%s]: %s", len(blk.Txs), strings.Join(topToks, " "), parts[1]))
+			}
+			c.Count(fmt.Sprintf("engine:snapshot-parent-list-len=%d(deputyCount %d)", len(topToks), deputyCount))
 			if loadable != "ok" || ra == "panic" || rb == "panic" {
 				e.fail("c10/snapshot-deputies-not-loadable", fmt.Sprintf("snapshot block 8 with %d txs: deputies=%s; NewTermRecord: %s; InsertBlock: %s %s", len(blk.Txs), dstr, loadable, ra, ma))
 				c.Count("engine:snapshot-not-loadable")
@@ -523,6 +589,8 @@ func c10EngineRandomRun(c *Ctx, run int) {
 // string; the running node lists U2 (collectUnregisters only removes "false"), blockCommit persists it (profile
 // not empty), start-up keeps only "true": after a restart the same block has another top list.
 func c10OddFlagScenario(c *Ctx) {
+	site := "engine-odd-flag-scenario"
+	defer c10Guard(c, "engine odd-flag scenario", &site, func() []string { return nil })
 	now := uint32(time.Now().Unix())
 	w := NewWorld(1, now-500000, 10000)
 	a := w.NewNode(2)
